@@ -143,6 +143,14 @@ def expl_trace(tid, n, lo, up):
     try:
         # every third game is not an IncompleteCooperativeGame but another implementation of the protocol (floats / exact Fractions)
         g = bounds_game(n, lo, up) if tid % 3 else ProtoGame(n, lo, up, exact=(tid % 6 == 0))
+        if tid % 4 == 1 and tid % 3:
+            # the object was evaluated before with OTHER bounds and then changed through the public setters: nothing remembered from the
+            # first evaluation may leak into the second
+            g = bounds_game(n, [x - 1.0 if 0 < c < 2 ** n - 1 else x for c, x in enumerate(lo)], [x + 2.0 if 0 < c < 2 ** n - 1 else x for c, x in enumerate(up)])
+            compute_exploitability(g)
+            [MaxGainGame(g, i).get_values() for i in range(n)]
+            g.set_lower_bounds(np.array(lo, dtype=np.float64))
+            g.set_upper_bounds(np.array(up, dtype=np.float64))
         e = compute_exploitability(g)
         t["en"] = D.interval(float(e), factorial(n) * scale, rel_ulps=8 * (n + 2), mag=(2 * n + 1) * M, tight=True)
         # the per-player max-gain games, read in full and coalition by coalition; reading them must leave the game as it was
@@ -207,6 +215,13 @@ def main():
                 tid += 1
                 kind = j % 5
                 v = [0.0] + [float(rv()) for _ in range(NC - 1)]
+                if n >= 11:
+                    # eleven players and more (seed C06-f: a size table that loses player 10): SPARSE games -- three non-zero coalitions, one of
+                    # them with the highest players -- so that the numerators n! * Shapley stay inside TLC's 32-bit integers
+                    v = [0.0] * NC
+                    for s_ in [rng.randrange(1, NC), (1 << (n - 1)) | (1 << 10) | rng.randrange(1, 1 << 9), rng.randrange(1, NC)]:
+                        v[s_] = float(rng.randint(1, 3))
+                    kind = 0
                 if kind == 1:
                     v = [x / 8 for x in v]
                 elif kind == 2:                           # a null player
@@ -227,9 +242,9 @@ def main():
                     v = [v[c] + 3 * (c == s1) - 2 * (c == s2) for c in range(NC)]
                 if j % 7 == 6:
                     v = [x * 2.0 ** -30 for x in v]          # very small magnitude
-                partner = [0.0] + [float(rv()) for _ in range(NC - 1)] if j % 3 == 1 else None
+                partner = [0.0] + [float(rv()) for _ in range(NC - 1)] if (j % 3 == 1 and n < 11) else None
                 graph = None
-                if j % 8 == 7 and n >= 2:           # a graph game (another implementation of the Game protocol)
+                if j % 8 == 7 and 2 <= n < 11:           # a graph game (another implementation of the Game protocol)
                     from incomplete_cooperative.graph_game import GraphCooperativeGame
                     m = np.zeros((n, n))
                     for a_ in range(n):
@@ -256,7 +271,7 @@ def main():
                     normalize_game(g2)
                     tid += 1
                     traces.append(shapley_trace(tid, n, [float(x) for x in g2.get_values()], None, g2))
-                elif graph is None and j % 4 == 2:
+                elif graph is None and j % 4 == 2 and n < 11:
                     obj = full_game(n, v)
                     list(compute_shapley_value(obj))
                     compute_shapley_value_for_player(n - 1, obj)
